@@ -1,4 +1,5 @@
 """C16 — same members from file, pipe or callbacks, and after any self-extractor prefix."""
+import re
 import os, re, tempfile, shutil
 from concurrent.futures import ThreadPoolExecutor
 from vlib.core import Case
@@ -11,6 +12,10 @@ PER_OP_SECONDS = 20
 THEOREMS = {"tool_kind_independent": "full: the whole tool (x/e/p/t/l...) behaves identically from a file, a pipe, callbacks with/without skip: flags, file system, stdout, stderr, exit status, headers",
             "tool_prefix_transparent": "full: ... and after a self-extractor prefix (no signature/marker, first header within the scan limit), any two kinds",
             "listing_kind_independent": "full",
+            "tool_shift_transparent": "full: ANY prefix the scan passes over (general form; clean stubs and marker+decoy prefixes are instances)",
+            "tool_decoy_transparent": "full: stub + SFX marker + decoy signature, at tool level",
+            "prefix_passed_over_iff": "full: for an archive starting with a header, exactly the prefixes in which the scan of P alone finds nothing and leaves no decoy pending",
+            "sfx_archive_end_to_end": "full (C16 o C06 o C19): a self-extracting archive from any kind of source extracts / prints / lists exactly the tree it encodes",
             "scan_finds_first": "full", "first_signature": "full", "prefix_transparent": "full", "prefix_transparent_zero": "full",
             "decoy_skipped": "full", "skip_kinds": "full", "kinds_agree": "full", "kinds_agree_n": "full"}
 TRUSTED = ["hand-written models LhasaV.Model.{Stream,Reader}; spec Stream.firstHeader (declarative scan) proved equal to the model's windowed scan",
@@ -74,6 +79,9 @@ def gen_cases(ctx, ngroups):
             out.append(Case(A.rdr_op(r.choice(A.KINDS), pol, toks, P + d), tags={"decoy", "marker=" + marker[:3].decode()},
                             note=("same", gid, len(P))))
         out.append(Case("cli2 t %s" % d.hex(), tags={"cli-stdin"}, note=("cli", gid, 0)))
+        if g % 2 == 0:
+            # the same FILE object first on a regular file, then reopened on a FIFO: both passes must present the same members
+            out.append(Case("rdrreopen %s %s %s" % (pol, ";".join(toks), d.hex()), tags={"reopen", "c-only"}, judge=judge_reopen, note=("reopen", 10 ** 6 + gid, 0)))
         gid += 1
     return out
 
@@ -82,12 +90,29 @@ def body(line):
     return line.split(" live=")[0]
 
 
+def judge_reopen(c_out):
+    if c_out.startswith(("CRASH", "TIMEOUT")):
+        return "implementation crashed: " + c_out[:150]
+    m = re.match(r"A:(.*)\|B:(.*) live=(\d+)$", c_out)
+    if m is None:
+        return "the second pass (same FILE object, reopened on a pipe) did not run: " + c_out[:150]
+    if m.group(1) != m.group(2):
+        return ("members from a pipe differ from the members from the file when the same FILE object is used for both (state kept "
+                "about a FILE* from one stream to the next): file %s | pipe %s" % (m.group(1)[:120], m.group(2)[:120]))
+    return None
+
+
 def judge_groups(cases, c_outs):
     why = {}
     groups = {}
     for i, c in enumerate(cases):
         groups.setdefault(c.note[1], []).append(i)
     for g, idxs in groups.items():
+        for i in idxs:
+            if cases[i].note[0] == "reopen":
+                w = judge_reopen(c_outs[i])
+                if w:
+                    why[i] = w
         ref = [i for i in idxs if cases[i].note[0] == "ref"]
         if not ref:
             continue
@@ -156,6 +181,8 @@ def evaluate(ctx, env, cases, with_model):
     if with_model and env.get("lhv"):
         m_outs, _ = core.run_lines_parallel([env["lhv"]], [c.op for c in lib])
         for c, co, mo in zip(lib, c_outs, m_outs):
+            if "c-only" in c.tags:
+                continue
             if canon(co) != mo and not any(x["op"].startswith(c.op[:400]) for x in conc):
                 corr.append({"op": c.op[:400], "c_out": co[:300], "model_out": mo[:300], "why": "model and implementation disagree"})
     for c in allc:
